@@ -1,0 +1,12 @@
+//go:build verif
+// +build verif
+
+package isaacstates
+
+import "github.com/spikeekips/mitum/base"
+
+// VerifMimicBallotFunc returns the function which States installs into
+// Ballotbox.SetNewBallotFunc; the mimic-ballot path taken while syncing.
+func (st *States) VerifMimicBallotFunc() func(base.Ballot) {
+	return st.mimicBallotFunc()
+}
